@@ -58,7 +58,9 @@ def merge_shards(rs):
     m["not_restored"] = ranges(n for r in rs for n in r["not_restored"])
     m["followups"] = [f for r in rs for f in r["followups"]]
     m["followup_bad"] = [f for r in rs for f in r["followup_bad"]]
-    m["examples"] = sorted((e for r in rs for e in r["examples"]), key=lambda e: e["length"])[:8]
+    ex = sorted((e for r in rs for e in r["examples"]), key=lambda e: e["length"])
+    m["examples"] = [e for i, e in enumerate(ex)
+                     if sum(1 for f in ex[:i] if (f["class"], f["fault"]) == (e["class"], e["fault"])) < 3]
     return m
 
 
@@ -121,7 +123,7 @@ def coq_cases(res, rep):
 
 def run(tier):
     chk = Check("C11", tier)
-    chk.proofs(extra_files=["Corr/K10.v"])
+    chk.proofs(extra_files=["Corr/K10.v", "Corr/K14.v"])
     rng = chk.rng
     ndirs = 10 if tier == "thorough" else 2
     S = 3 if tier == "thorough" else 6
@@ -162,7 +164,10 @@ def run(tier):
         cases_rep += coq_cases(d, True)
         cases_pin += coq_cases(d, False)
         p = d["pickle"]
-        if p["decodable_prefixes"] or not p["roundtrip_identity"] or not p["zero_filled_fails"]:
+        if not p["single_pickle_of_a_list"]:
+            codec_bad.append({"size": size, "reason": "the cache file is not one pickle of an entry list: the codec the theorems "
+                                                    "assume (self-delimiting, strict prefixes fail to load) is not what is on disk"})
+        elif p["decodable_prefixes"] or not p["roundtrip_identity"] or not p["zero_filled_fails"]:
             codec_bad.append({"size": size, "pickle": p})
         # ---- oracle: the property's own words ----
         for cls, tag, what in (("empty", "dircache-undecodable-empty-reply",
@@ -187,6 +192,45 @@ def run(tier):
             chk.violation({"what": "after a request that met a damaged cache file the file is not a complete fresh entry",
                            "lengths": d["not_restored"][:20], "job": dict(job, range=[d["not_restored"][0][0]] * 2)},
                           tag="dircache-not-rewritten")
+    # ---- every point at which concurrent readers can observe a cut-off file / a writer (deterministic schedules) ----
+    import c14
+    cj = []
+    for tr in ({"abs": 0}, {"abs": 1}, {"frac": 0.33}, {"frac": 0.8}, {"from_end": 1}):
+        for n in (2, 3):
+            both = [i for _ in range(2) for i in range(n)]          # all stat, then all read the same cut-off file
+            cj.append(dict(c14.sched_job(rng, kind=3, n=n, sched=both), trunc=tr))
+            cj.append(dict(c14.sched_job(rng, kind=3, n=n), trunc=tr))
+    for n in (2, 3, 3):
+        # a writer has truncated but not written; the others stat and read now
+        cj.append(c14.sched_job(rng, kind=0, n=n, sched=[0, 0] + [i for _ in range(2) for i in range(1, n)]))
+        cj.append(c14.sched_job(rng, kind=0, n=n))
+    cres = impl_run_parallel(cj, chunks=6)
+    for r in cres:
+        if not r["ok"]:
+            raise RuntimeError(r["err"] + "\n" + r.get("tb", ""))
+    ccases = [c14.coq_case(j, r["res"], True) for j, r in zip(cj, cres)]
+    cmism, cerr, _ = coq_eval("C11", "k_conc", "Lib.Str Corr.K14", "chk_sched", ccases, shard=60)
+    conc = {"schedules": len(cj), "requests": sum(j["n"] for j in cj), "mismatches": len(cmism), "errors": [cerr] if cerr else [],
+            "bad_answers": 0}
+    seen_conc = set()
+    for j, r in zip(cj, cres):
+        d = r["res"]
+        chk.count(("conc", j["kind"], j["n"], tuple(j["sched"]), json.dumps(j.get("trunc"))), nontrivial=True)
+        for i, o in enumerate(d["obs"]):
+            if o == 0:
+                continue
+            conc["bad_answers"] += 1
+            found = True
+            tag = "concurrent-readers-%s:%s" % ("cut-off-file" if j["kind"] == 3 else "truncating-writer",
+                                               "empty-reply" if o == 1000 else "wrong-answer")
+            if tag in seen_conc:
+                continue
+            seen_conc.add(tag)
+            chk.violation({"what": "%d requests in flight for a directory whose cache file is %s: request %d does not get the "
+                                   "listing (observed: %s)" % (j["n"], "cut off (%r)" % j.get("trunc") if j["kind"] == 3 else
+                                                               "being rewritten by request 0 (truncated, not yet written)", i,
+                                                               d["detail"][i]["response_head_latin1"] or "EMPTY reply"),
+                           "schedule": j["sched"], "gate_trace": d["gate_trace"], "requests": d["detail"], "job": j}, tag=tag)
     zres = res[-1]["res"]
     chk.count(("zip", zres["tested"]), nontrivial=False, n=zres["tested"])   # never re-read: trivial by construction
     if zres["nfails"]:
@@ -201,6 +245,7 @@ def run(tier):
     cov["correspondence"] = {"directories": per_dir, "cases": len(cases_rep), "shards": nsh, "mismatches": len(mism),
                              "errors": [e for e in (err,) if e], "implementation_behaves_as_model_variant": behaves,
                              "mismatches_against_pinned_variant": len(mism_p)}
+    cov["concurrent_readers"] = conc
     cov["zip_index_cache"] = {
         "files": zres["files"], "requests": zres["tested"], "failures_as_written": zres["nfails"],
         "per_variant": zres["per_variant"],
@@ -218,8 +263,13 @@ def run(tier):
                    "prefix length 0..size-1 plus the zero-filled and the 0xFF-filled file of full length put in "
                    "its place (mtime = now, i.e. fresh) and the listing requested through a seeded protocol sequence; reply "
                    "compared with the cacheless listing, the file afterwards with a complete entry, every 61st followed by a "
-                   "second request; same enumeration over the three ZIP index cache files; non-trivial = every such request")
+                   "second request; deterministic schedules of 2-3 concurrent requests that all observe the same cut-off file (5 cut "
+                   "points) or a writer that has truncated but not written, compared with Model/Conc.v and the sequential answer; "
+                   "same enumeration over the three ZIP index cache files; non-trivial = every such request")
     chk.sample({"kind": "directory", **{k: v for k, v in per_dir[0].items() if k != "pickle"}})
+    if cmism or cerr:
+        chk.correspondence_broken("K14 (concurrent readers of a cut-off cache file vs. Model/Conc.v)",
+                                  {"mismatching_cases": [ccases[i] for i in cmism[:5]], "errors": cerr}, found)
     k_broken = bool(mism or err)
     if k_broken:
         chk.correspondence_broken("K10/C11 (repaired loadcache vs. implementation under damage)",
@@ -242,6 +292,9 @@ def replay(path):
     with open(path) as f:
         rp = json.load(f)
     job = rp["job"]
+    if job.get("op") == "c14_sched":
+        import c14
+        return c14.replay(path)
     r = impl_run([job])[0]
     if not r["ok"]:
         print(r["err"])
